@@ -122,6 +122,11 @@ def check(P, rep):
                 if variant_name(a) == 'Ok':
                     for x in alts(a[3][0]):
                         s = sol_struct(x)
+                        cx = core(x)
+                        if s and cx[0] == 'call' and len(cx) > 3 and cx[3]:
+                            # evaluate the struct's fields AT the construction site: data merged alongside a "which path" tag and split
+                            # again by a later match is resolved by the states of that site
+                            s = sol_struct(norm(g.leaf_term(g.ctxs[cx[3][0]], cx[3][1]))) or s
                         if s:
                             structs.append(s)
                         else:
@@ -178,6 +183,24 @@ def check(P, rep):
                         else:
                             names = hub_fields.get(x[2], [])
                             builds.append((x[2], dict(zip(names, x[3]))))
+        # evaluate each variant AT its construction site (path-sensitive: data carried alongside a "which path" tag and split again by a
+        # later match is resolved by the states of that site); the return-term view above stays the shape check
+        sited = []
+        want = 'Message' if level == 'msg' else 'HubMessage'
+        for ctx_ in g.ctxs:
+            for d_ in ctx_.body['defs']:
+                if d_['kind'] == 'assign' and d_['rv']['r'] == 'agg' and d_['rv'].get('is_enum') and re.fullmatch(r'(\w+::)*' + want, d_['rv'].get('adt', '')) \
+                        and (ctx_.id, d_['bb']) in g.node_states:
+                    x = norm(g.term_def(ctx_, d_, 0))
+                    if x[0] != 'variant':
+                        continue
+                    if level == 'msg':
+                        inner = fields_of(core(x[3][0])) if x[3] else None
+                        sited.append((x[2], inner or {}))
+                    else:
+                        sited.append((x[2], dict(zip(hub_fields.get(x[2], []), x[3]))))
+        if sited and sorted(set(v for v, _ in sited)) == sorted(set(v for v, _ in builds)):
+            builds = sited
         rep.floor('%s variants built' % nm, len(builds), 2)
         rep.check(saw_err, 'C10.R2', 'decode:%s:unknown-tag-err' % level, 'unsupported tags / failed decodes return Err', entry_id(g))
         for vname, f in builds:
@@ -302,14 +325,14 @@ def check(P, rep):
                         if fld is None:
                             continue
                         nsome += 1
-                        ne = guard_sel(g, lambda c_: (c_[0] == 'false' and c_[1][0] == 'call' and c_[1][1].endswith('[u8]>::is_empty') and same(core(c_[1][2][0]), fld))
+                        ne = guard_sel(g, lambda c_: (c_[0] == 'false' and c_[1][0] == 'call' and re.search(r'(\[u8\]>|Bytes|Vec::<u8>)::is_empty$', c_[1][1]) is not None and same(core(c_[1][2][0]), fld))
                                        or (c_[0] == 'cmp' and c_[1] == 'ne' and is_len_of(c_[2], fld) and const_int(core(c_[3])) == 0)
                                        or (c_[0] == 'cmp' and c_[1] == 'lt' and const_int(core(c_[2])) == 0 and is_len_of(c_[3], fld)))
                         ok, _, w = mg(g, [(ctx.id, d['bb'])], (), edges(ne)) if ne else (False, None, None)
                         rep.check(ok, 'C10.R8', 'decode:%s:some-only-if-nonempty' % fld[1], 'Some(bytes) is built only behind "the sol field is not empty" (empty decodes to None)',
                                   site(g, ctx, d['bb']), None, w)
             rep.floor('optional-bytes Some constructions in Message::abi_decode', nsome, 2)
-            em = guard_sel(g, lambda c_: (c_[0] in ('true', 'false') and c_[1][0] == 'call' and c_[1][1].endswith('[u8]>::is_empty'))
+            em = guard_sel(g, lambda c_: (c_[0] in ('true', 'false') and c_[1][0] == 'call' and re.search(r'(\[u8\]>|Bytes|Vec::<u8>)::is_empty$', c_[1][1]) is not None)
                            or (c_[0] == 'cmp' and c_[1] in ('eq', 'ne') and is_len_of(c_[2], None) and const_int(core(c_[3])) == 0))
             rep.floor('empty-bytes guards in Message::abi_decode', len(em), 2)
     # R3 bijection
